@@ -308,7 +308,7 @@ type c16Ctx struct {
 }
 
 func c16NewCtx(c fw.Case) *c16Ctx {
-	gen16 := c.Kind == "rand" || c.Kind == "grid" || c.Kind == "shared"
+	gen16 := c.Kind == "rand" || c.Kind == "grid" || c.Kind == "shared" || c.Kind == "concave"
 	return &c16Ctx{Result: fw.NewResult(), sigs: map[string]bool{}, keys: map[string]bool{}, members: map[string]bool{},
 		dedupeSigs: !gen16, r: gen.New(c.Seed^0x16c16, "c16pre/"+c.Kind), degrade: gen16}
 }
@@ -1131,6 +1131,65 @@ func c16AnnotateShared(res *c16Ctx, set *polyg.SharedSet) {
 	}
 }
 
+// enum-edge: fixed truths whose vertices lie on the ends of the coordinate range.
+func c16EnumEdge(res *c16Ctx) int {
+	deg := func(lon, lat float64) polyg.Pt {
+		return polyg.Pt{X: int64(math.Round(lon * 1e7)), Y: int64(math.Round(lat * 1e7))}
+	}
+	ring := func(cw bool, c ...float64) []polyg.Pt {
+		var out []polyg.Pt
+		for i := 0; i+1 < len(c); i += 2 {
+			out = append(out, deg(c[i], c[i+1]))
+		}
+		if cw {
+			for i, j := 0, len(out)-1; i < j; i, j = i+1, j-1 {
+				out[i], out[j] = out[j], out[i]
+			}
+		}
+		return out
+	}
+	truths := []*polyg.Truth{
+		{Origin: "edge", Polys: []polyg.Poly{{
+			Outer: ring(false, -180, -90, 12.5, -90, 180, -90, 180, 90, -180, 90),
+			Holes: [][]polyg.Pt{ring(true, -100, -50, 120, -50, 120, 60, -100, 60)},
+		}}},
+		{Origin: "edge", Polys: []polyg.Poly{
+			{Outer: ring(false, 170, -90, 180, -90, 180, 33.3, 180, 90, 170, 90),
+				Holes: [][]polyg.Pt{ring(true, 172, -10, 178, -10, 175, 10)}},
+			{Outer: ring(false, -180, -45, -170, -45, -170, 45, -180, 45)},
+		}},
+	}
+	nodeIDs, wayIDs := c16IDs(64)
+	count := 0
+	for ti, t := range truths {
+		t.Normalise()
+		if err := t.Validate(1000); err != nil {
+			panic("c16 enum-edge truth invalid: " + err.Error())
+		}
+		n0 := len(t.Polys[0].Outer)
+		for mask := uint(1); mask < 1<<uint(n0); mask++ {
+			k := c16Popcount(mask)
+			for _, rev := range []uint{0, 1<<uint(k) - 1, 0b0101 & (1<<uint(k) - 1), 0b1010 & (1<<uint(k) - 1)} {
+				cuts := [][]polyg.RingCut{{c16MaskCut(n0, mask, rev), c16MaskCut(len(t.Polys[0].Holes[0]), 0b011, 0b01)}}
+				if ti == 1 {
+					cuts = append(cuts, []polyg.RingCut{c16MaskCut(4, uint(1+mask%15), rev)})
+				}
+				for ord := 0; ord < 2; ord++ {
+					in := polyg.Assemble(t, cuts, nodeIDs, wayIDs)
+					if ord == 1 {
+						for i, j := 0, len(in.MemberOrder)-1; i < j; i, j = i+1, j-1 {
+							in.MemberOrder[i], in.MemberOrder[j] = in.MemberOrder[j], in.MemberOrder[i]
+						}
+					}
+					c16Check(res, in, fmt.Sprintf("enum-edge%d", ti))
+					count++
+				}
+			}
+		}
+	}
+	return count
+}
+
 func c16Exec(c fw.Case) *fw.Result {
 	res := c16NewCtx(c)
 	switch c.Kind {
@@ -1148,15 +1207,31 @@ func c16Exec(c fw.Case) *fw.Result {
 		if res.Sample == nil {
 			res.Sample = map[string]any{"truths": n}
 		}
-	case "grid":
+	case "grid", "concave":
 		n := int(c.Int("n"))
 		for i := 0; i < n; i++ {
 			r := gen.New(gen.Sub(c.Seed, "c16grid", i), "c16g")
-			t, _ := polyg.GenerateGrid(r)
+			var t *polyg.Truth
+			fam := "grid"
+			if c.Kind == "concave" {
+				t, _ = polyg.GenerateConcave(r)
+				fam = "concave"
+				out, inOther := t.BBoxCentreStats()
+				res.Add("concave_truths", 1)
+				if out > 0 {
+					fam = "concave-out"
+					res.Add("concave_truths_hole_bbox_centre_outside_own_outer", 1)
+				}
+				if inOther > 0 {
+					fam = "concave-in"
+					res.Add("concave_truths_hole_bbox_centre_inside_other_outer", 1)
+				}
+			} else {
+				t, _ = polyg.GenerateGrid(r)
+			}
 			base := polyg.GridInstance(r, t)
 			pairs, others := t.AlignedPassThrough()
-			fam := "grid"
-			if pairs > 0 {
+			if pairs > 0 && fam == "grid" {
 				fam = "grid-al"
 				res.Add("grid_truths_with_aligned_pass_through_vertex", 1)
 			}
@@ -1215,6 +1290,10 @@ func c16Exec(c fw.Case) *fw.Result {
 		if res.Sample == nil {
 			res.Sample = map[string]any{"shared_sets": n}
 		}
+	case "enum-edge":
+		cnt := c16EnumEdge(res)
+		res.Sample = map[string]any{"family": "rings on the ends of the coordinate range: the whole range (-180..180 x -90..90) with a hole; strips ending on lon=180 / lon=-180 from pole to pole", "inputs": cnt}
+		res.Add("enumerated_inputs", int64(cnt))
 	case "enum-partial":
 		var masks []uint
 		for m := c.Int("lo"); m <= c.Int("hi"); m++ {
@@ -1253,6 +1332,7 @@ func init() {
 		Rule: "generated ground truths (1-4 star-shaped outers in distinct grid cells, 0-3 holes each, validated by the generator's own exact point-in-polygon / segment-intersection tests), every ring cut at 1..n vertices, pieces reversed at random, members / ways / nodes shuffled; " +
 			"each truth is converted in four input variants (N node objects, W located way nodes, NO/WO the same with truth-derived member orientations) and annotated four times: members without annotations (A), pre-annotated with the true directions (A=), with the opposite ones (A-), with a mix of right / wrong / none (A~); plus seed-independent exhaustive families (single n-gon: every cut set x reversal mask x member order; outer+hole; two outers). " +
 			"Every input is also converted with only a random subset of members annotated (NP, WP; enum-partial: all subsets x orders), and sets of 2-4 relations sharing border ways (kind shared) go through one Convert call in every relation order, each relation judged against its own truth. " +
+			"Concave truths (kind concave: thick-snake outers with corridor holes, further outers in the notch) and placements on the ends of the coordinate range (origin edge, enum-edge) are part of the case list. " +
 			"A signature is (family, #outers, holes per outer, cut classes present, reversal class, +node member, variant); distinct_nontrivial counts distinct signatures.",
 		Assumptions: []string{
 			"'the result is the same' is read up to ring start vertex, order of holes within a polygon and order of polygons; winding, closure and the cyclic vertex sequence are compared exactly (float64 bit patterns)",
@@ -1309,6 +1389,14 @@ func init() {
 			} else {
 				cs = append(cs, fw.Case{Kind: "enum-partial", P: map[string]int64{"quick": 1}})
 			}
+			concCases, concPer := 20, 10
+			if tier == "thorough" {
+				concCases, concPer = 200, 40
+			}
+			for i := 0; i < concCases; i++ {
+				cs = append(cs, fw.Case{Kind: "concave", Seed: gen.Sub(seed, "c16concavecase", i), P: map[string]int64{"n": int64(concPer)}})
+			}
+			cs = append(cs, fw.Case{Kind: "enum-edge"})
 			cs = append(cs, fw.Case{Kind: "enum-grid", P: map[string]int64{"split": 0}})
 			if tier == "thorough" {
 				cs = append(cs, fw.Case{Kind: "enum-grid", P: map[string]int64{"split": 1, "perms": 0}})
